@@ -63,7 +63,11 @@ class PaneBase:
         custom: t.Optional[IntoConverterHandlers] = None,
         **kwargs: t.Any,
     ):
-        old_params = getattr(cls, '__parameters__', ())
+        if '__parameters__' in cls.__dict__:
+            old_params = cls.__dict__['__parameters__']  # set by _make_subclass
+        else:
+            # free type variables of every base (attribute lookup on `cls` would only find those of the first)
+            old_params = tuple(p for base in cls.__bases__ for p in getattr(base, '__parameters__', ()))
         super().__init_subclass__(*args, **kwargs)
         new_params = getattr(cls, '__parameters__', ())
         if any(t.get_origin(base) is t.Generic for base in cls.__dict__.get('__orig_bases__', ())):
